@@ -481,3 +481,41 @@ func FlattenTypenameDefs(s *Schema, tag string, abstract bool) []*Def {
 	}
 	return nil
 }
+
+// LateTypenameDefs: an abstract-typed field that selects `__typename` explicitly, but AFTER an
+// inline fragment and after a fragment spread (nothing may be added: it is selected already).
+func LateTypenameDefs(s *Schema, tag string) []*Def {
+	for _, f := range s.FieldsOf("Query") {
+		td := s.Get(f.Type.Base())
+		if td == nil || (td.Kind != "INTERFACE" && td.Kind != "UNION") {
+			continue
+		}
+		req := false
+		for _, a := range f.Args {
+			if a.Type.NonNull && a.Default == "" {
+				req = true
+			}
+		}
+		if req {
+			continue
+		}
+		for _, p := range s.PossibleTypes(td.Name) {
+			leaf := ""
+			for _, lf := range s.FieldsOf(p) {
+				if s.IsLeaf(lf.Type.Base()) && len(lf.Args) == 0 {
+					leaf = lf.Name
+				}
+			}
+			if leaf == "" {
+				continue
+			}
+			fr := "Hz" + tag + "F"
+			return []*Def{
+				{Kind: "fragment", Name: fr, Text: fmt.Sprintf("fragment %s on %s {\n  %s\n}\n", fr, p, leaf)},
+				{Kind: "query", Name: "Hz" + tag + "Q1", Text: fmt.Sprintf("query Hz%sQ1 {\n  %s {\n    ... on %s {\n      %s\n    }\n    __typename\n  }\n}\n", tag, f.Name, p, leaf)},
+				{Kind: "query", Name: "Hz" + tag + "Q2", Text: fmt.Sprintf("query Hz%sQ2 {\n  %s {\n    ...%s\n    __typename\n  }\n}\n", tag, f.Name, fr)},
+			}
+		}
+	}
+	return nil
+}
